@@ -9,6 +9,7 @@ import (
 	"fmt"
 	"os"
 
+	"verifharness/apph"
 	"verifharness/ledgerh"
 	"verifharness/preimage"
 	"verifharness/signer"
@@ -36,6 +37,8 @@ func main() {
 	scratch := fs.String("scratch", os.TempDir(), "scratch directory")
 	stats := fs.String("stats", "", "stats JSON output")
 	jsonOut := fs.String("json", "", "machine-readable copy of the cases")
+	blocks := fs.Int("blocks", 30, "blocks per history")
+	profile := fs.String("profile", "", "generator profile")
 	_ = fs.Parse(os.Args[2:])
 
 	switch cmd {
@@ -53,6 +56,13 @@ func main() {
 			os.Exit(3)
 		}
 		writeStats(*stats, map[string]interface{}{"vectors": st, "probe": preimage.Probe(*seed, *n)})
+	case "app":
+		st, err := apph.GenerateCases(*seed, *n, *blocks, *out, *scratch, *jsonOut, *profile)
+		if err != nil {
+			fmt.Fprintln(os.Stderr, "error:", err)
+			os.Exit(3)
+		}
+		writeStats(*stats, st)
 	case "ledger":
 		st, err := ledgerh.Generate(*seed, *n, *out, *scratch, *jsonOut)
 		if err != nil {
